@@ -10,6 +10,7 @@ from .common import MachineryError, run_tlc, tlc_failure_excerpt
 class BatchResult:
     def __init__(self):
         self.verdicts = {}  # (unit index, input index) 0-based -> verdict string
+        self.scope = {}  # unit index -> WellScoped verdict of the spec (ExoProgram!WellScoped)
         self.states = 0
         self.generated = 0
         self.wall = 0.0
@@ -56,6 +57,8 @@ def run_units(units, workdir, stepbound=6000, timeout=1500, max_batch_bytes=24_0
             if isinstance(rec, dict) and "u" in rec and "i" in rec:
                 k = batch[rec["u"] - 1][0]
                 res.verdicts[(k, rec["i"] - 1)] = rec["v"]
+                if rec["i"] == 1:
+                    res.scope[k] = (bool(rec.get("wsa", True)), bool(rec.get("wsb", True)))
         os.unlink(path)
     for k, u in todo:
         for i in range(len(u["inputs"])):
